@@ -167,6 +167,7 @@ def r2(ctx):
         return [[(c, tv)]]
 
     accepting = []
+    opaque_reject = []
     for st in rets:
         v = norm(st['value'])
         if v == ('int', 1, 'bool'):
@@ -198,7 +199,10 @@ def r2(ctx):
                 lits = [(bb(c_, an), t_) for c_, t_ in alt]
                 lits = [(c_, t_) for c_, t_ in lits if c_[0] != 'discr']
                 cls = classify_reject(ctx, s, lits, colvars=[bb(x, an) for x in colvars] + colvars)
-                if cls is None:
+                if cls is None and lits and any(isinstance(x, tuple) and x and x[0] == 'closure' for x in walk(lits[-1][0])):
+                    opaque_reject.append(st)
+                    ctx.inconclusive(R, 'is_sane rejects under a condition computed by an iterator adaptor with a closure (not analysed): ' + sh(lits[-1][0], 160))
+                elif cls is None:
                     ctx.violation(R, SANE + ':unattributed:' + (sh(lits[-1][0], 60) if lits else 'unconditional'),
                                   'is_sane rejects under a condition that is not one of the required validity conjuncts: %s -- some valid position would be refused' % (
                                       sh(lits[-1][0], 300) if lits else 'unconditionally'), where(body, st['line']))
@@ -253,6 +257,8 @@ def r2(ctx):
     for n in need:
         if n in found:
             ctx.ok(R, 'is_sane rejects: %s' % desc[n], where(body, found[n][0][0]))
+        elif opaque_reject:
+            ctx.inconclusive(R, 'no recognised rejection for "%s" (a rejection through an iterator adaptor is present but not analysed)' % desc[n])
         else:
             ctx.violation(R, SANE + ':missing:' + n, 'is_sane has no rejection for "%s": such a position is accepted' % desc[n], where(body))
     ctx.floor(R, '`return false` sites in is_sane', nfalse, 8)
